@@ -49,6 +49,21 @@ PROBES = [
     ("fiber.finished.captured.after.yield", "fn spawn() { var fb = Fiber.new(|| { var held = [\"h\"]; var get = || held; Fiber.yield(get); held = [\"h2\"]; return 0; }); var g = fb.call(); fb.call(); return g; } "
                                             "var g = spawn(); churn(); print(g()); var pads = [[1], [2], [3]]; churn(); print(g());"),
     ("fiber.failed.captured.local", "var keep = nil; fn spawn() { var fb = Fiber.new(|| { var v = [\"kept\"]; keep = || v; return v; }); fb.call(); } spawn(); churn(); print(keep()); churn(); print(keep());"),
+    # temporaries: the only reference to an object is an operand of the operation that allocates
+    ("temp.vec.slice", "fn mk() { return [[1], [2], [3], [4]]; } print(mk()[0..3]); print(mk()[1..2][0]); print(mk()[-2..4]);"),
+    ("temp.tuple.slice", "fn mk() { return ([1], [2], [3]); } print(mk()[0..2]); print(mk()[1..3][1]);"),
+    ("temp.string.slice", "fn mk() { return \"ab\" + \"cdé\"; } print(mk()[1..3]); print(mk()[3]); print((mk() + mk())[2..6]);"),
+    ("temp.vec.index.then.use", "fn mk() { return [[1, [2]], [3]]; } var e = mk()[0]; churn(); print(e); print(mk()[0][1]);"),
+    ("temp.iter", "fn mk() { return [[1], [2]]; } var it = mk().iter(); churn(); print(it.next()); print(it.next()); for x in mk() { churn(); print(x); }"),
+    ("temp.adapters", "fn mk() { return [[1], [2], [3]]; } print(mk().iter().map(|v| [v, v]).filter(|v| v[0][0] > 1).collect()); print(mk().iter().reduce(|a, v| [a, v], [0]));"),
+    ("temp.literals", "fn mk(n) { return [n, [n]]; } print([mk(1), mk(2), mk(3)]); print((mk(1), mk(2), mk(3))); print({\"a\": mk(1), \"b\": mk(2)}.get(\"a\")); print({(1, 2): mk(3)}.values());"),
+    ("temp.args", "fn mk(n) { return [n, [n]]; } fn three(a, b, c) { churn(); return [a, b, c]; } print(three(mk(1), mk(2), mk(3))); var v = []; v.push(mk(4)); v.push(mk(5)); print(v);"),
+    ("temp.strings", "fn mk(n) { return \"s\" + String.from(n); } print(mk(1) + mk(2) + mk(3)); print(\"${mk(1)}-${mk(2)}-${[mk(3)]}\"); print(String.from([mk(1), [mk(2)]])); print(mk(7).replace(\"s\", mk(8))); print((mk(1) + \",\" + mk(2)).split(\",\"));"),
+    ("temp.map.natives", "fn mk() { return {\"k\": [1], (1, 2): [2]}; } print(mk().get(\"k\")); print(mk().values().len()); print(mk().items().len()); var m = mk(); m.insert([1, 2].len(), mk()); print(m.len());"),
+    ("temp.instances", "#[constructor(new)] class B { fn me(self) { return self; } fn mk(self) { return [self.v]; } } fn mk(n) { var b = B.new(); b.v = [n]; return b; } print(mk(1).me().v); print(mk(2).mk()); var bm = mk(3).mk; churn(); print(bm());"),
+    ("temp.closures", "fn mk(n) { var c = [n]; return || c; } print(mk(1)()); print([mk(2), mk(3)][1]()); var fb = Fiber.new(mk(4)); churn(); print(fb.call());"),
+    ("temp.ranges", "fn mk() { return [10, 20, 30, 40]; } for x in mk()[1..3] { churn(); print(x); } var r = (1..3); print(mk()[r]); print((0..2).iter().map(|i| [i]).collect());"),
+    ("temp.throw", "fn mk(n) { return [n, [n]]; } try { throw mk(1); } catch e { churn(); print(e); } fn t() { throw [mk(2), mk(3)]; } try { t(); } catch e { churn(); print(e); }"),
     ("fiber.in.field", "#[constructor(new)] class H {} var h = H.new(); h.fb = Fiber.new(|| { var x = [4]; Fiber.yield(x); return x; }); print(h.fb.call()); churn(); print(h.fb.call());"),
     ("exception.in.flight", "try { try { throw [1, [2]]; } finally { churn(); } } catch e { print(e); }"),
     ("exception.instance", "try { var z = nil + 1; } catch e { churn(); print(e.context); print(type(e)); }"),
